@@ -192,7 +192,8 @@ BoxCat == << Box(0, 0, 0, 1, 1, 1),        \* 1 unit cell
              Box(-2, -1, 0, 1, 1, 1),      \* 3 a 3x2x1 slab (edges of three lengths)
              Box(0, 0, 0, 2, 2, 1),        \* 4 overlaps 2,3,6; contains 1
              Box(0, -1, -1, 1, 0, 1),      \* 5 touches 4 and 1 in a face patch, inside 2
-             Box(-1, 0, 0, 2, 1, 2) >>     \* 6 crosses 2, 3, 4
+             Box(-1, 0, 0, 2, 1, 2),       \* 6 crosses 2, 3, 4
+             Box(0, 0, 1, 2, 2, 2) >>      \* 7 sits on 4 (whole-face contact: union with coplanar seams, intersection a 2x2 flap)
 Box6(b) == << b[1][1], b[1][2], b[1][3], b[2][1], b[2][2], b[2][3] >>
 SolidDen(s) == IF Len(s.boxes) = 1 THEN BoxCells(BoxCat[s.boxes[1]])
                ELSE BoolSem(s.op, BoxCells(BoxCat[s.boxes[1]]), BoxCells(BoxCat[s.boxes[2]]))
